@@ -719,7 +719,7 @@ func (c *codegen) convertFuncDecl(file ast.Node, decl *ast.FuncDecl, pkg *types.
 		}
 	}
 
-	f.rng.Start = uint16(c.prog.Len())
+	f.rng.Start = uint32(c.prog.Len())
 	c.scope = f
 	ast.Inspect(decl, c.scope.analyzeVoidCalls) // @OPTIMIZE
 
@@ -801,7 +801,7 @@ func (c *codegen) convertFuncDecl(file ast.Node, decl *ast.FuncDecl, pkg *types.
 		c.deployVariables = append(c.deployVariables, f.variables...)
 	}
 
-	f.rng.End = uint16(c.prog.Len() - 1)
+	f.rng.End = uint32(c.prog.Len() - 1)
 
 	// init() and _deploy() bodies are parts of a bigger method, the lambdas met
 	// there are compiled when this method is complete.
@@ -3294,11 +3294,11 @@ func (c *codegen) writeJumps(b []byte) ([]byte, error) {
 	}
 
 	if c.deployEndOffset >= 0 {
-		_, end := correctRange(uint16(c.initEndOffset+1), uint16(c.deployEndOffset), nopOffsets)
+		_, end := correctRange(uint32(c.initEndOffset+1), uint32(c.deployEndOffset), nopOffsets)
 		c.deployEndOffset = int(end)
 	}
 	if c.initEndOffset > 0 {
-		_, end := correctRange(0, uint16(c.initEndOffset), nopOffsets)
+		_, end := correctRange(0, uint32(c.initEndOffset), nopOffsets)
 		c.initEndOffset = int(end)
 	}
 
@@ -3318,7 +3318,7 @@ func (c *codegen) writeJumps(b []byte) ([]byte, error) {
 	return removeNOPs(b, nopOffsets, c.sequencePoints), nil
 }
 
-func correctRange(start, end uint16, offsets []int) (uint16, uint16) {
+func correctRange(start, end uint32, offsets []int) (uint32, uint32) {
 	newStart, newEnd := start, end
 loop:
 	for _, ind := range offsets {
